@@ -1040,7 +1040,14 @@ class EnhancedRetransmissionProcessor(Processor):
                 == InformationEnhancedControlField.SegmentationAndReassembly.START
             ):
                 # Drop Control Field(2) + SDU Length(2)
-                self._in_sdu += pdu[4:]
+                # A new SDU starts: what was being reassembled (if anything) is abandoned
+                self._in_sdu = pdu[4:]
+            elif (
+                control_field.sar
+                == InformationEnhancedControlField.SegmentationAndReassembly.UNSEGMENTED
+            ):
+                # Drop Control Field(2)
+                self._in_sdu = pdu[2:]
             else:
                 # Drop Control Field(2)
                 self._in_sdu += pdu[2:]
